@@ -17,6 +17,7 @@ pub struct Meta {
     pub assumptions: Vec<String>,
     pub extra: Value,
     pub max_workers: usize,
+    pub pin_workers: bool,
 }
 
 pub enum Confirm {
@@ -122,6 +123,150 @@ pub fn e1_spec(_id: &str, _tier: &str) -> Option<Spec> {
     None
 }
 
+#[cfg(feature = "conc")]
+const RULE_E2: &str = "every thread interleaving of the listed scenarios with at most `bound` preemptions (iterative context bounding, depth-first by re-execution from a fresh database), scheduling points at every atomic operation, mutex acquisition, condvar wait/notify, spawn, join and thread end of salsa's sync shim (real OS threads, one running at a time). states = search-tree nodes, transitions = scheduling decisions executed, traces_validated = complete schedules whose observations were compared with the reference. A schedule is non-trivial when at least two threads executed query bodies or one thread blocked on another.";
+
+#[cfg(feature = "conc")]
+fn e2_assumptions() -> Vec<String> {
+    vec![
+        "sequentially consistent interleavings only (no weak-memory behaviours)".into(),
+        "operations of third-party lock-free code not routed through salsa's sync shim (boxcar, crossbeam SegQueue, std OnceLock in function.rs, the std AtomicU8 of CancellationToken) execute atomically between scheduling points".into(),
+        "no spurious condvar wake-ups; preemption bound and scenario set as listed in coverage.bounds".into(),
+    ]
+}
+
+#[cfg(feature = "conc")]
+pub fn e2_spec(id: &str, tier: &str) -> Option<crate::e2::E2Spec> {
+    use crate::e2::{E2Spec, Oracle, Scen};
+    use ql::ex::{Kind, Op};
+    let quick = tier == "quick";
+    let cap = if quick { 40 } else { 1200 };
+    let q = |n: u8| Op::Q(n);
+    let dag_progs = || {
+        vec![
+            progs::p3(1, 0, 1), // diamond over a cell
+            progs::p3(5, 3, 2), // input-dependent branch
+            progs::p3(5, 5, 3), // value-dependent branch
+            progs::p3(4, 6, 6), // tracked struct + function on it
+            progs::p3(3, 7, 1), // interning
+            progs::p3(1, 2, 4), // multi-argument keys
+            progs::p3(2, 0, 5), // untracked leaf + zero-arg function
+            progs::p3(4, 2, 7), // struct fields + identity
+        ]
+    };
+    let assignments2 = || vec![vec![vec![q(2)], vec![q(2)]], vec![vec![q(2)], vec![q(1)]], vec![vec![q(1), q(2)], vec![q(0), q(2)]]];
+    let assignments3 = || vec![vec![vec![q(2)], vec![q(2)], vec![q(1)]], vec![vec![q(2)], vec![q(1)], vec![q(0)]]];
+    match id {
+        "C16" | "C17" => {
+            let once = id == "C17";
+            let mut scens = Vec::new();
+            for p in dag_progs() {
+                for (ai, th) in assignments2().into_iter().enumerate() {
+                    // single revision, deeper bound
+                    scens.push(Scen {
+                        name: format!("{}-2t-a{}", p.name, ai),
+                        prog: p.clone(),
+                        setup: vec![],
+                        threads: th.clone(),
+                        phase2_writes: vec![],
+                        phase2: false,
+                        bound: if quick { 2 } else { 3 },
+                        oracle: if once { Oracle::Once } else { Oracle::Readers },
+                    });
+                    if once {
+                        // two revisions (write between the phases), one preemption less
+                        scens.push(Scen {
+                            name: format!("{}-2t-a{}-2rev", p.name, ai),
+                            prog: p.clone(),
+                            setup: vec![],
+                            threads: th,
+                            phase2_writes: vec![Op::Set(0, 1)],
+                            phase2: true,
+                            bound: if quick { 1 } else { 2 },
+                            oracle: Oracle::Once,
+                        });
+                    }
+                }
+                if !quick || p.name == "p3-1-0-1" || p.name == "p3-4-6-6" {
+                    for (ai, th) in assignments3().into_iter().enumerate() {
+                        scens.push(Scen {
+                            name: format!("{}-3t-a{}", p.name, ai),
+                            prog: p.clone(),
+                            setup: vec![],
+                            threads: th,
+                            phase2_writes: vec![Op::Set(0, 1)],
+                            phase2: once && !quick,
+                            bound: if quick { 1 } else { 2 },
+                            oracle: if once { Oracle::Once } else { Oracle::Readers },
+                        });
+                    }
+                }
+            }
+            Some(E2Spec {
+                id: if once { "C17" } else { "C16" },
+                scens,
+                cap_s: cap,
+                rule: RULE_E2,
+                assumptions: e2_assumptions(),
+            })
+        }
+        "C18" => {
+            let mut scens = Vec::new();
+            for kind in [Kind::Fx, Kind::Fxj, Kind::Fb] {
+                let two: Vec<(ql::ex::Program, Vec<Vec<Op>>)> = vec![
+                    (progs::cyc2(kind), vec![vec![q(0)], vec![q(1)]]),
+                    (progs::cyc3(kind), vec![vec![q(0)], vec![q(1)]]),
+                    (progs::nested3(kind), vec![vec![q(0)], vec![q(2)]]),
+                    (progs::cond_cycle(kind), vec![vec![q(2)], vec![q(1)]]),
+                ];
+                for (p, th) in two {
+                    scens.push(Scen {
+                        name: format!("{}-2t", p.name),
+                        prog: p,
+                        setup: vec![],
+                        threads: th,
+                        phase2_writes: vec![Op::Set(1, 0), Op::Set(0, 3)],
+                        phase2: true,
+                        bound: if quick { 1 } else { 2 },
+                        oracle: Oracle::Cycles,
+                    });
+                }
+                if kind != Kind::Fxj {
+                    let p = progs::nested3(kind);
+                    scens.push(Scen {
+                        name: format!("{}-3t", p.name),
+                        prog: p,
+                        setup: vec![],
+                        threads: vec![vec![q(0)], vec![q(1)], vec![q(2)]],
+                        phase2_writes: vec![],
+                        phase2: false,
+                        bound: if quick { 0 } else { 1 },
+                        oracle: Oracle::Cycles,
+                    });
+                }
+            }
+            if quick {
+                // k = 2 on the two smallest 2-thread harnesses
+                for kind in [Kind::Fx, Kind::Fb] {
+                    let p = progs::cyc2(kind);
+                    scens.push(Scen {
+                        name: format!("{}-2t-k2", p.name),
+                        prog: p,
+                        setup: vec![],
+                        threads: vec![vec![q(0)], vec![q(1)]],
+                        phase2_writes: vec![],
+                        phase2: false,
+                        bound: 2,
+                        oracle: Oracle::Cycles,
+                    });
+                }
+            }
+            Some(E2Spec { id: "C18", scens, cap_s: cap, rule: RULE_E2, assumptions: e2_assumptions() })
+        }
+        _ => None,
+    }
+}
+
 pub fn meta(id: &str, tier: &str) -> Option<Meta> {
     if let Some(s) = e1_spec(id, tier) {
         let alpha_sizes: Vec<usize> = s.programs.iter().map(|p| (s.alphabet)(p).len()).collect();
@@ -141,7 +286,38 @@ pub fn meta(id: &str, tier: &str) -> Option<Meta> {
             assumptions: s.assumptions.clone(),
             extra: json!({}),
             max_workers: 64,
+            pin_workers: false,
         });
+    }
+    #[cfg(feature = "conc")]
+    {
+        if id == "LITMUS" {
+            return Some(Meta {
+                engine: "E2 ctl self-test",
+                config: "conc",
+                rule: "litmus bodies with known outcomes on the engine's own primitives",
+                bounds: json!({}),
+                assumptions: vec![],
+                extra: json!({}),
+                max_workers: 1,
+                pin_workers: true,
+            });
+        }
+        if let Some(s) = e2_spec(id, tier) {
+            return Some(Meta {
+                engine: "E2 ctl (preemption-bounded exhaustive schedule exploration of the real code on OS threads)",
+                config: "conc",
+                rule: s.rule,
+                bounds: json!({
+                    "scenarios": s.scens.iter().map(|x| json!({"name": x.name, "threads": x.threads.len(), "preemption_bound": x.bound})).collect::<Vec<_>>(),
+                    "time_cap_per_scenario_per_worker_s": s.cap_s,
+                }),
+                assumptions: s.assumptions.clone(),
+                extra: json!({}),
+                max_workers: 64,
+                pin_workers: true,
+            });
+        }
     }
     None
 }
@@ -149,6 +325,21 @@ pub fn meta(id: &str, tier: &str) -> Option<Meta> {
 pub fn worker(id: &str, tier: &str, w: usize, n: usize) -> WorkerOut {
     if let Some(s) = e1_spec(id, tier) {
         return e1::run_worker(&s, w, n);
+    }
+    #[cfg(feature = "conc")]
+    {
+        if id == "LITMUS" {
+            return match crate::e2::litmus() {
+                Ok(stats) => WorkerOut { stats, viols: vec![] },
+                Err(e) => {
+                    eprintln!("MACHINERY: engine self-test failed: {e}");
+                    std::process::exit(2)
+                }
+            };
+        }
+        if let Some(s) = e2_spec(id, tier) {
+            return crate::e2::run_worker(&s, w, n);
+        }
     }
     eprintln!("MACHINERY: unknown property {id}");
     std::process::exit(2)
@@ -177,6 +368,15 @@ pub fn confirm(id: &str, v: &Viol) -> Confirm {
                 _ => Confirm::NotReproduced,
             }
         }
+        #[cfg(feature = "conc")]
+        Some("e2") => {
+            let a = crate::e2::replay_case(&v.case);
+            let b = crate::e2::replay_case(&v.case);
+            match (a, b) {
+                (Some(Some(_)), Some(Some(_))) => Confirm::Reproduced,
+                _ => Confirm::NotReproduced,
+            }
+        }
         _ => Confirm::Reproduced,
     }
 }
@@ -196,6 +396,22 @@ pub fn replay(id: &str, path: &str) -> i32 {
             }
             None => {
                 eprintln!("MACHINERY: cannot interpret replay file {path}");
+                2
+            }
+        },
+        #[cfg(feature = "conc")]
+        Some("e2") => match crate::e2::replay_case(&v.case) {
+            Some(Some(msg)) => {
+                println!("VIOLATION property={id} replay={path}");
+                println!("  {msg}");
+                1
+            }
+            Some(None) => {
+                println!("replay of {path}: property {id} holds on this schedule");
+                0
+            }
+            None => {
+                eprintln!("MACHINERY: schedule in {path} could not be replayed deterministically");
                 2
             }
         },
